@@ -468,7 +468,7 @@ theorem run_held (ops : List UOp) (s : St) (h : GoodState s.m s.ext) (hg : OpsGu
 
 /-- two references that agree as functions of the variable NAMES agree as functions of the levels
 (every level below `nvars` has a name of its own) -/
-theorem den_of_denN {t : Tbl} (hw : WF t) (hO : OrderOK t) (u v : Int) (hu : t.Mem u) (hv : t.Mem v)
+theorem den_of_denN_tbl {t : Tbl} (hw : WF t) (hO : OrderOK t) (u v : Int) (hu : t.Mem u) (hv : t.Mem v)
     (h : ∀ σ, denN t u σ = denN t v σ) : ∀ a, den t u a = den t v a := by
   intro a
   let σ : AsgN := fun name => match t.vars[name]? with
